@@ -1228,6 +1228,9 @@ package nbs
 //@   ensures  0 <= result && result <= len(slice)
 //@   ensures  0 <= verif_ghost.tGI && verif_ghost.tGI < result ==> slice[verif_ghost.tGI] < target
 //@   ensures  result <= verif_ghost.tGI && verif_ghost.tGI < len(slice) ==> slice[verif_ghost.tGI] >= target
+// and at the boundary itself (no sortedness needed)
+//@   ensures  result < len(slice) ==> slice[result] >= target
+//@   ensures  result > 0 ==> slice[result-1] < target
 //@   loop 1
 //@     invariant items == len(slice) && 0 <= lft && lft <= rht && rht <= items && items > 0
 //@     invariant lo < target && target <= hi
@@ -1235,6 +1238,7 @@ package nbs
 //@     invariant (rht == items && hi == slice[items-1]) || (rht < items && hi == slice[rht])
 //@     invariant 0 <= verif_ghost.tGI && verif_ghost.tGI < lft ==> slice[verif_ghost.tGI] < target
 //@     invariant rht <= verif_ghost.tGI && verif_ghost.tGI < items && rht < items ==> slice[verif_ghost.tGI] >= target
+//@     invariant lft > 0 ==> slice[lft-1] < target
 //@     decreases rht - lft
 
 // ---- a database on a blobstore: the records sub-object of a table is exactly its chunk-record prefix (C42)
@@ -1260,3 +1264,49 @@ package nbs
 //@   property C02
 //@   assume_requires updateManifest
 //@   at call rebase: assert nbs.memtable == nil && len(nbs.tables.novel) == 0 && current == last
+
+// ---- archive lookup (C01): findIndex finds an address exactly when the index holds it
+
+//@ func verif_arPfx
+//@   pure
+//@   opaque
+//@ func verif_arSfx
+//@   pure
+//@   opaque
+//@ func verif_arCount
+//@   pure
+//@   opaque
+//@ func verif_arMatch
+//@   pure
+
+// the index reader as findIndex sees it (assumed at the interface; for the in-memory reader, getPrefix / getSuffix
+// are under contract above and searchPrefix is prollyBinSearch, proved to be this lower bound)
+//@ extern (github.com/dolthub/dolt/go/store/nbs.archiveIndexReader).getPrefix as verif_x_arIdx_getPrefix
+//@   modifies nothing
+//@   ensures p == verif_arPfx(r, idx)
+//@ extern (github.com/dolthub/dolt/go/store/nbs.archiveIndexReader).getSuffix as verif_x_arIdx_getSuffix
+//@   modifies nothing
+//@   ensures forall b in 0..12: x[b] == verif_arSfx(r, idx)[b]
+//@ extern (github.com/dolthub/dolt/go/store/nbs.archiveIndexReader).searchPrefix as verif_x_arIdx_searchPrefix
+//@   modifies nothing
+//@   ensures i >= 0
+//@   ensures 0 <= verif_ghost.tGJ && verif_ghost.tGJ < int(i) ==> verif_arPfx(r, uint32(verif_ghost.tGJ)) < prefix
+//@   ensures i > 0 ==> verif_arPfx(r, uint32(i)-1) < prefix
+//@   ensures i >= 0 && uint32(i) < verif_arCount(r) ==> verif_arPfx(r, uint32(i)) >= prefix
+
+// findIndex: an index it returns holds exactly the address asked for; and (for EVERY entry tGJ, relative to which the
+// index's prefixes are sorted, as the writer emits them) if some entry holds the address, an index is returned
+//@ func (*archiveReader).findIndex
+//@   property C01
+//@   requires ar != nil && ar.indexReader != nil && ar.footer.chunkCount < 1<<31 && verif_arCount(ar.indexReader) == ar.footer.chunkCount
+//@   requires forall t in 1..int(ar.footer.chunkCount): verif_arPfx(ar.indexReader, uint32(t)-1) <= verif_arPfx(ar.indexReader, uint32(t))
+//@   requires 0 <= verif_ghost.tGJ && verif_ghost.tGJ < int(ar.footer.chunkCount) ==> forall t in 0..int(ar.footer.chunkCount): (t <= verif_ghost.tGJ ==> verif_arPfx(ar.indexReader, uint32(t)) <= verif_arPfx(ar.indexReader, uint32(verif_ghost.tGJ))) && (t >= verif_ghost.tGJ ==> verif_arPfx(ar.indexReader, uint32(t)) >= verif_arPfx(ar.indexReader, uint32(verif_ghost.tGJ)))
+//@   modifies nothing
+//@   ensures  result >= -1 && result < int(ar.footer.chunkCount)
+//@   ensures  result >= 0 ==> verif_arPfx(ar.indexReader, uint32(result)) == hash.Prefix()
+//@   ensures  result >= 0 ==> forall b in 0..12: verif_arSfx(ar.indexReader, uint32(result))[b] == hash[8+b]
+//@   ensures  verif_arMatch(ar, hash) ==> result >= 0
+//@   loop 1
+//@     invariant possibleMatch >= 0 && uint32(possibleMatch) < ar.footer.chunkCount && uint32(possibleMatch) <= idx
+//@     invariant idx > uint32(possibleMatch) ==> verif_arPfx(ar.indexReader, idx-1) == prefix
+//@     invariant verif_arMatch(ar, hash) ==> int(idx) <= verif_ghost.tGJ
